@@ -114,7 +114,8 @@ def main():
         rc, o = sh([os.path.join(V, "check"), pid, "--tier", tier], cwd=V, env=env, timeout=7200)
         lines = [l for l in o.splitlines() if l.startswith(("VIOLATION", "OK ", "INFRA", "KNOWN-FINDING"))]
         meta["check"] = {"tier": tier, "exit": rc, "wall_s": round(time.time() - t0, 1), "verdict_lines": lines[:6],
-                         "first_failure": next((l.strip()[:600] for l in o.splitlines() if "failed after" in l or "flaky test" in l), None)}
+                         "first_failure": next((l.strip()[:600] for l in o.splitlines() if "failed after" in l or "flaky test" in l), None),
+                         "failure_lines": [l.strip()[:400] for l in o.splitlines() if ("raceback (" in l or ("_test.go:" in l and "[rapid]" not in l and "\t" not in l))][:8]}
         meta["caught"] = rc == 1
     finally:
         sh("git -C /repo worktree remove --force %s" % wt)
